@@ -381,6 +381,14 @@ def main(argv):
         print("NOTE: function %s no longer exists; its contract (%s, obligations %s) was dropped - callers are checked against their own contracts" % (lc["fn"], lc["contract"], ", ".join(lc["labels"])[:300]))
     new_fns = set(k for k in fns_by_key if baseline and k not in baseline and not fns_by_key[k]["contract"])
     new_names = set(fns_by_key[k]["fn"] for k in new_fns)
+    # a NEW free function or inherent method whose name occurs nowhere else in the extracted code is dead code as far as every property goes
+    # (trait-impl methods are called implicitly - Drop, PartialEq, Display, From - and stay attributed)
+    unreferenced_new = set()
+    for k in new_fns:
+        f0 = fns_by_key[k]
+        if " for " in f0.get("impl", "") or f0["fn"] in AMBIGUOUS: continue
+        pat = re.compile(r"\b%s\b" % re.escape(f0["fn"]))
+        if not any(k2 != k and pat.search(f2.get("body_text", "")) for k2, f2 in fns_by_key.items()): unreferenced_new.add(k)
     changed_fns = set(k for k, f in fns_by_key.items() if baseline and baseline.get(k) != f["body_hash"])
     inlined_names = set(getattr(ctx, "inline_defs", {}) or {})
     for n in sorted(inlined_names): print("NOTE: new helper `%s` has no contract; it was inlined at its call sites (R-inline) so its callers are checked on what they now do" % n)
@@ -413,7 +421,7 @@ def main(argv):
             ps |= set(FN_BODY_PROPS.get(k, []))
             # an uncontracted helper that became unverifiable: every shared-core property may rest on it.  Not for functions that are
             # external_body on the unchanged tree as well and carry no label (Payload == R, Debug): nothing was ever proved through them
-            if not f.get("labels") and not f.get("safety") and not (f["external_body"] and not f.get("stubbed")): ps |= set(SHARED)
+            if not f.get("labels") and not f.get("safety") and not (f["external_body"] and not f.get("stubbed")) and k not in unreferenced_new: ps |= set(SHARED)
             if pid in ps: out_of_reach.append((k, stub_reason.get(k, "")))
             elif k in cone.get(pid, ()): out_of_reach_cone.append((k, stub_reason.get(k, "")))
         kani_info = None
